@@ -87,6 +87,12 @@ Fixpoint spec_ptrace (g : ghost) (ops : list pop) : list pobs :=
   | o :: rest => snd (spec_pstep g o) :: spec_ptrace (fst (spec_pstep g o)) rest
   end.
 
+Fixpoint spec_pexec (g : ghost) (ops : list pop) : ghost :=
+  match ops with
+  | [] => g
+  | o :: rest => spec_pexec (fst (spec_pstep g o)) rest
+  end.
+
 (* ------------------------------------------------ well-formed inputs
    dict keys are unique (Python dicts), and all tuples handed in under one
    name have the width of that name (8 for net, 9 for disks; any fixed width
@@ -103,8 +109,8 @@ Definition wop_ok (W : bytes -> nat) (o : wop) : bool :=
 Definition pop_ok (o : pop) : bool :=
   match o with PCall f _ _ raw => dict_ok (width f) raw | _ => true end.
 
-(* the class on which the code as written departs from the property: a
-   nowrap=True call that finds no device at all *)
+(* the class on which the code before commit e278b23 departed from the property:
+   a nowrap=True call that finds no device at all *)
 Definition empty_nowrap (o : pop) : bool :=
   match o with PCall _ _ nowrap raw => nowrap && is_empty raw | _ => false end.
 Definition no_empty_nowrap (ops : list pop) : bool := forallb (fun o => negb (empty_nowrap o)) ops.
